@@ -32,7 +32,7 @@ class Terms:
         if depth > 6 or g is None:
             return {('unknown', g.q if g else '?')}
         out = set()
-        rets = [n for n in g.nodes.values() if n['k'] == 'ret' and n.get('e') is not None]
+        rets = g.returns()
         if not rets:
             if g.never_returns():
                 return set()   # every path throws (component not supported by this backend): contributes no value
@@ -182,7 +182,7 @@ def rule_A_mpi(ck, units):
             def conv(f_, e):
                 return e
             terms = set()
-            for r in [n for n in f.nodes.values() if n['k'] == 'ret' and n.get('e') is not None]:
+            for r in f.returns():
                 terms |= mpi_term(T, f, r['e'])
             dets = []
             for t in terms:
@@ -234,7 +234,7 @@ def rule_B(ck, units):
         for f in u.funcs:
             if f.q.split('::')[-1] != 'transfer_operators' or not f.cls or f.cls.split('::')[-1] not in ADJOINT_R or not f.cls.startswith('amgcl::coarsening::'):
                 continue
-            rets = [n for n in f.nodes.values() if n['k'] == 'ret' and n.get('e') is not None]
+            rets = f.returns()
             dets = []
             for r in rets:
                 tup = [c for c in walk(r['e']) if c['k'] == 'call' and c.get('f') in ('std::make_tuple', 'std::make_pair')]
@@ -304,7 +304,7 @@ def rule_C(ck, units):
                             elif nm in ('bP', 'bR') and stores[nm][1] != ['allow_rebuild']:
                                 dets.append('%s is stored under guard %s (expected allow_rebuild)' % (nm, stores[nm][1]))
                     # the returned matrix is the coarse operator
-                    rets = [n for n in f.nodes.values() if n['k'] == 'ret' and n.get('e') is not None]
+                    rets = f.returns()
                     lastret = [r for r in rets if an.root_of_expr(f, r['e']) == ('param', 0)]
                     asg = [n for n in f.nodes.values() if n['k'] == 'bin' and n['op'] == '=' and an.root_of_expr(f, n['x']) == ('param', 0) and unwrap(n['x'])['k'] == 'ref'
                            and any(x is co[0] for x in walk(n['y']))]
